@@ -52,6 +52,8 @@ impl Vm {
                     self.stack.clear();
                     self.bp = 0;
                     self.ep = usize::MAX;
+                    // and reclaim what it allocated, as a completed evaluation does
+                    self.run_gc();
                     return Err(e);
                 }
             }
